@@ -25,7 +25,8 @@ HELPERS = (TM + '_find_node', TM + '_get_first_neighbors_via', TM + '_filter_nod
 
 
 def world(g, flavour):
-    return gen_shared_world(g) if flavour == 'shared' else gen_disjoint_world(g)
+    # shared store: edges between nodes of DIFFERENT graphs exist after merge_nodes -- queries must not follow them
+    return gen_shared_world(g, cross_edges=True) if flavour == 'shared' else gen_disjoint_world(g)
 
 
 def pre_graph(pre):
